@@ -4,7 +4,7 @@ import io
 import json
 from fractions import Fraction
 
-from common import standard_prologue, run_hx, run_drv, run_sharded, enc, dec, HX, DRV
+from common import standard_prologue, run_hx, run_drv, run_sharded, enc, dec, dec_bytes, HX, DRV
 from imp1517 import sx_parse, sx_str, sx_find, docs_yaml
 
 CLAIM = {
@@ -47,7 +47,31 @@ CLAIM = {
              "single_entry::Txn and to_double_entry versus the model, printed with the real DisplayContext and re-read with the real "
              "parser, partitioned by the Lean CleanText predicate: inside the class any read-back difference is a violation, "
              "outside it differences are matched against the F15 class; (2) CSV / Viseca / Camt053 files with hostile text through the "
-             "real importers, same oracle with ReadableTree evaluated on the tree the importer built; one transaction per record."),
+             "real importers, same oracle with ReadableTree evaluated on the tree the importer built; one transaction per record. "
+             "VISECA STATEMENT PARSER (okane's own hand-written decoder, now inside the model: Model/ImportViseca.lean starts at the LINES of "
+             "the file — LineReader peek/read_line/line_count, the four regexes as explicit recognisers with Unicode \\d, parse_euro_date, "
+             "parse_decimal = rust_decimal from_str with its 64/96-bit phases, overflow error and round-half-up cut at 28 places that "
+             "ignores the rest of the text, Parser::parse_entry, viseca.rs::import with the rewrite-rule extractor): proved for EVERY list "
+             "of lines (also non-UTF-8 ones), every configuration, every regex engine — C15_viseca_total (no panic site, the loops' fuel is "
+             "never exhausted), C15_viseca_one_per_record (a successful import = the parser reads the whole statement, transactions are the "
+             "conversions of its records one each in order, every record starts at its own head line matching FIRST_LINE, line numbers "
+             "strictly increasing, every record well formed so import's `internal error` branch is dead), C15_viseca_roundtrip (for every "
+             "list of entries inside the decidable class canonStatement the text printStatement writes — Swiss `'` grouping, ` -` marker, "
+             "`Credit of processing fee` — is read back as exactly those entries numbered by their head lines; one record followed by "
+             "anything starting like a head line is read as that record consuming exactly its lines), C15_viseca_amounts / "
+             "C15_viseca_card_posting (the card posting is -amount in the card's commodity, last for a spending / first for a credit, "
+             "without rate; a fee line is exactly one charge to the operator; the exchange rate is keyed by the spent commodity and priced "
+             "in the equivalent's; transferred = -spent), entryToTxn_err (the only two ways a record's conversion fails). Side conditions "
+             "of the round trip are each shown necessary (roundtrip_needs_*: payee ending like a currency group — the format is "
+             "ambiguous there —, two-digit-year window, one sign per head line, category starting with a digit); F38_regression: the "
+             "statement that lost a record before fix 5a6d633 (unanchored Air- tag pattern) is read completely. Stream viseca-text: "
+             "hand-written corner statements (every bad number / bad date at every place, line-structure corners, F38 witness) + generated "
+             "well-formed statements (oracle on the real parser: read as written, independent of the model) + damaged ones (truncation, "
+             "dropped / duplicated / swapped / stray lines, CRLF, non-UTF-8, bad dates incl. non-ASCII digits, bad numbers incl. 96-bit "
+             "overflow and 28-place rounding, blanks, case, trailing white space): real viseca::parser::Parser and real import::import vs "
+             "the model (entries with line numbers, error kind + message head + line number, transaction trees), sign facts checked on the "
+             "real trees, and the model's canonical text of every canonical entry list fed back to the REAL parser (round-trip theorem on "
+             "the real code)."),
     "note": ("the read-back theorems are about the Lean models of the printer and the parser (validated against the real code by the "
              "C05 / C07 / C19 correspondence checks), tied to the real importer output by this check's oracle; csv / quick-xml / regex / chrono decoding "
              "are outside the model (the model starts from the decoded record); rust_decimal arithmetic outside 96 bits / scale 28 is "
@@ -66,6 +90,21 @@ THEOREMS = [
     "Okane.Import.readback_ledger", "Okane.Import.readableTree_wf", "Okane.Import.ledgerOf_eq",
     "Okane.Import.exprRd_amt", "Okane.Import.posting_rd", "Okane.Import.transaction_rd", "Okane.Import.entryRd_txn",
     "Okane.Import.parseEntries_texts", "Okane.Import.readback_tree_all", "Okane.Import.readback_ledger_all",
+    # the Viseca statement parser (Model/ImportViseca.lean, Lemmas/ImportViseca*.lean)
+    "Okane.Import.C15_viseca_total", "Okane.Import.C15_viseca_one_per_record", "Okane.Import.C15_viseca_roundtrip",
+    "Okane.Import.C15_viseca_amounts", "Okane.Import.C15_viseca_card_posting",
+    "Okane.Import.Viseca.parseEntry_spec", "Okane.Import.Viseca.parseEntries_total", "Okane.Import.Viseca.visecaImport_total",
+    "Okane.Import.Viseca.visecaImport_one_per_record", "Okane.Import.Viseca.parseEntries_heads", "Okane.Import.Viseca.visecaImport_of_parse",
+    "Okane.Import.Viseca.parseEntries_wf", "Okane.Import.Viseca.entryToTxn_err",
+    "Okane.Import.Viseca.parseEntry_printEntry", "Okane.Import.Viseca.parseEntries_printStatement",
+    "Okane.Import.Viseca.printStatement_linesOf", "Okane.Import.Viseca.parseEntries_statementText",
+    "Okane.Import.Viseca.decFromStr_digits", "Okane.Import.Viseca.parseDecimal_printGrouped", "Okane.Import.Viseca.parseEuroDate_printEuroDate",
+    "Okane.Import.Viseca.payeeScan_spent", "Okane.Import.Viseca.payeeScan_plain", "Okane.Import.Viseca.firstLine_printHead",
+    "Okane.Import.Viseca.exchangeLine_printExchange", "Okane.Import.Viseca.feeLine_printFee", "Okane.Import.Viseca.parseDecimal_alphabet",
+    "Okane.Import.Viseca.entryToTxn_amount", "Okane.Import.Viseca.entryToTxn_charges", "Okane.Import.Viseca.entryToTxn_rate",
+    "Okane.Import.Viseca.roundtrip_needs_payee_condition", "Okane.Import.Viseca.roundtrip_needs_year_window",
+    "Okane.Import.Viseca.roundtrip_needs_sign_condition", "Okane.Import.Viseca.roundtrip_needs_category_condition",
+    "Okane.Import.Viseca.F38_regression",
 ]
 
 # ------------------------------------------------------------------------------------------------
@@ -641,6 +680,482 @@ def run_import_stream(chk, n, f15):
 
 
 # ------------------------------------------------------------------------------------------------
+# viseca-text: the Viseca statement PARSER (viseca/parser.rs) and viseca.rs::import against Model/ImportViseca.lean
+
+VIS_WORDS = ["Migros", "Coop", "PAYPAL *STEAM GAMES,", "35314369001", "GB", "CH", "certain, phone company", "AMZN.DE/I,", "Luxembourg LU",
+             "g.co/helppay#", "Your payment - Thank you", "foo shop 100", "Café", "山田", "12.50", "X-Y", "-", "Tstation", "T", "GOOGLE *YouTubePremium,",
+             "HM.COM,", "NEUENDORF", "Air", "Air-", "1'000", "a:b", "Europe Gas AT", "MY TAXI, Amsterdam NL", "  ", "\t", "é", "%", "(x)"]
+VIS_AMBIGUOUS = ["XYZ ABC 100", "shop EUR 12.50", "a CHF 1'000", "USD 5"]
+VIS_AIRTAG = ["Air-France: ticket", "MY Air-Pass-Name: x", "see Air-1:"]
+VIS_CATS = ["Telecommunication services", "Service stations", "Digital goods, movies, music", "Game, toy, and hobby shops", "Clothing stores",
+            "Subscription merchants", "Tstations", "Air carriers, airlines", "Catering Service", "x", "Café 山田", "Processing fee", "a 1", "stations  EUR"]
+VIS_CCY = ["EUR", "USD", "JPY", "CHF", "GBP"]
+VIS_AIRLINES = ["Air-Pass-Name: kikeg MR", "Air-Ticket-Nbr: 0123456789", "Air-Trav-Agt-Name: KIKEG AIR", "Air-Departure-Date: 230816",
+                "Air-Origin-City: HND", "Air-Des-City: ZRH", "Air-X-1: y"]
+
+
+def vis_date(rng):
+    yy = rng.choice([20, 20, 21, 22, 23, 0, 69, 70, 99, rng.randint(0, 99)])
+    mm, dd = rng.randint(1, 12), rng.randint(1, 28)
+    if rng.random() < 0.05:
+        mm, dd = rng.choice([(12, 31), (1, 1), (2, 28), (2, 29)])
+        if (mm, dd) == (2, 29):
+            yy = rng.choice([20, 24, 96, 0])
+    return "%02d.%02d.%02d" % (dd, mm, yy), ((2000 if yy < 70 else 1900) + yy, mm, dd)
+
+
+def vis_number(rng, quotes=True, wide=False):
+    """-> (text, mant, scale): a number that fits a Decimal exactly"""
+    scale = rng.choice([2, 2, 2, 2, 2, 0, 1, 3, 4, 6]) if not wide else rng.choice([0, 2, 10, 20, 27, 28])
+    nd = rng.choice([1, 2, 3, 3, 4, 5, 7, 9]) if not wide else rng.choice([17, 18, 19, 20, 24, 28])
+    mant = rng.randrange(10 ** nd)
+    if rng.random() < 0.04:
+        mant = 0
+    if wide and rng.random() < 0.3:
+        mant = rng.choice([2 ** 96 - 1, 2 ** 64 - 1, 2 ** 64, 1844674407370954906, 1844674407370954905, 10 ** 28 - 1])
+    digs = str(mant).rjust(scale + 1, "0")
+    ip, fp = (digs[:-scale], digs[-scale:]) if scale else (digs, "")
+    style = rng.random()
+    if quotes and style < 0.55:
+        g = ""
+        for i, ch in enumerate(ip):
+            if i and (len(ip) - i) % 3 == 0:
+                g += "'"
+            g += ch
+        ip = g
+    elif quotes and style < 0.65:
+        k = rng.randint(0, len(ip))
+        ip = ip[:k] + "'" + ip[k:]
+    return ip + ("." + fp if scale else ""), mant, scale
+
+
+def vis_dec_sx(neg, mant, scale):
+    """what `value * ±1` leaves: Decimal::ZERO for a zero"""
+    if mant == 0:
+        return "(dec 0 0 0)", "0 0 0"
+    return "(dec %d %d %d)" % (neg, mant, scale), "%d %d %d" % (neg, mant, scale)
+
+
+def vis_payee(rng, hostile):
+    n = rng.choice([1, 1, 2, 2, 3, 4])
+    ws = [rng.choice(VIS_WORDS if rng.random() < hostile + 0.5 else VIS_WORDS[:12]) for _ in range(n)]
+    return " ".join(ws)
+
+
+def gen_viseca_record(rng, primary, hostile, line_no):
+    """one well-formed record -> (lines, expected `(e ..)` text, flags, number of lines)"""
+    flags = set()
+    dtxt, d = vis_date(rng)
+    etxt, e = (dtxt, d) if rng.random() < 0.2 else vis_date(rng)
+    payee = vis_payee(rng, hostile)
+    r = rng.random()
+    if r < 0.04:
+        payee = rng.choice(VIS_AIRTAG)
+        flags.add("airtag")
+    elif r < 0.08:
+        payee = rng.choice(VIS_AMBIGUOUS)
+        flags.add("ambiguous")
+    elif r < 0.10:
+        payee = ""
+    neg = 1 if rng.random() < 0.25 else 0
+    atxt, am, asc = vis_number(rng)
+    kind = rng.random()
+    spent = None
+    lines = []
+    if kind < 0.5:
+        head = "%s %s %s %s%s" % (dtxt, etxt, payee, atxt, " -" if neg else "")
+    else:
+        ccy = primary if kind > 0.85 else rng.choice([c for c in VIS_CCY if c != primary])
+        stxt, sm, ssc = vis_number(rng)
+        spent = (ccy, sm, ssc)
+        head = "%s %s %s %s %s %s%s" % (dtxt, etxt, payee, ccy, stxt, atxt, " -" if neg else "")
+        flags.discard("ambiguous")
+    if "ambiguous" in flags and spent is None:
+        pass
+    lines.append(head)
+    cat = ""
+    exch = None
+    fee = None
+    detail = spent is not None or rng.random() < 0.8
+    if spent is not None and rng.random() < 0.1:
+        detail = False   # a foreign-currency record without any detail line is accepted as it stands
+    if detail:
+        cat = rng.choice(VIS_CATS) if rng.random() < 0.95 else ""
+        lines.append(cat)
+        if spent is not None and spent[0] != primary:
+            rtxt, rm, rsc = vis_number(rng, quotes=False)
+            xd, xdd = vis_date(rng)
+            xc = primary if rng.random() < 0.9 else rng.choice(VIS_CCY)
+            qtxt, qm, qsc = vis_number(rng)
+            lines.append("Exchange rate %s of %s %s %s" % (rtxt, xd, xc, qtxt))
+            exch = (rm, rsc, xdd, xc, qm, qsc)
+        if spent is not None and rng.random() < 0.7:
+            ptxt, pm, psc = vis_number(rng, quotes=False)
+            ftxt, fm, fsc = vis_number(rng)
+            credit = rng.random() < 0.3
+            fc = primary if rng.random() < 0.9 else rng.choice(VIS_CCY)
+            lines.append("%s %s%% %s %s" % ("Credit of processing fee" if credit else "Processing fee", ptxt, fc, ftxt))
+            fee = (pm, psc, 1 if credit else 0, fm, fsc, fc)
+        if rng.random() < 0.15:
+            for _ in range(rng.randint(1, 4)):
+                lines.append(rng.choice(VIS_AIRLINES))
+            flags.add("airlines")
+    amt_sx, amt_tr = vis_dec_sx(neg, am, asc)
+    exp = "(e %d (d %d %d %d) (d %d %d %d) %s %s %s %s %s %s)" % (
+        line_no, d[0], d[1], d[2], e[0], e[1], e[2], enc(payee), amt_sx, enc(cat.strip()),
+        "()" if spent is None else "((amt %s %s))" % (vis_dec_sx(neg, spent[1], spent[2])[1], spent[0]),
+        "()" if exch is None else "((x (dec 0 %d %d) (d %d %d %d) (amt 0 %d %d %s)))" % (exch[0], exch[1], exch[2][0], exch[2][1], exch[2][2], exch[4], exch[5], exch[3]),
+        "()" if fee is None else "((f (dec 0 %d %d) (amt %s %s)))" % (fee[0], fee[1], vis_dec_sx(fee[2], fee[3], fee[4])[1], fee[5]))
+    if detail:
+        flags.add("detail")
+    return lines, exp, flags
+
+
+def vis_config(rng, hostile):
+    primary = "CHF" if rng.random() < 0.85 else "EUR"
+    doc = {"path": "card", "encoding": "UTF-8", "account": "Liabilities:Card", "account_type": "liability", "commodity": primary,
+           "format": {"commodity": {primary: {"precision": 2}}},
+           "rewrite": [{"matcher": {"category": "^T(?P<payee>.*)$"}},
+                       {"matcher": {"payee": "Migros"}, "account": "Expenses:Grocery"},
+                       {"matcher": [{"category": "stations"}, {"payee": "gas"}], "account": "Expenses:Car", "pending": True},
+                       {"matcher": {"payee": "^(?P<payee>PAYPAL) \\*(?P<code>\\w+)"}, "account": "Expenses:Paypal"},
+                       {"matcher": {"payee": "Coop"}, "payee": "Coop Genossenschaft"}]}
+    if rng.random() < 0.85:
+        doc["operator"] = rng.choice(["Card fee", "Okane Card (fee)", "Visa"])
+    r = rng.random()
+    if r < 0.03:
+        doc["rewrite"].append({"matcher": {"payee": "("}})                      # InvalidRegex before anything is read
+    elif r < 0.06:
+        doc["rewrite"].append({"matcher": {"creditor_name": "x"}})              # unsupported field for this importer
+    elif r < 0.10:
+        doc["rewrite"] = []
+    return primary, doc
+
+
+VIS_BAD_NUMBERS = ["1.2.3", "'", ".", "1..2", "''", "5.", ".5", "1'2'3.4'5", "9" * 29, "9" * 30, "79228162514264337593543950335", "79228162514264337593543950336",
+                   "0." + "0" * 27 + "15", "0." + "0" * 28 + "5", "1." + "0" * 27 + "05.6.7", "7922816251426433759354395033.56", "1844674407370954906.5",
+                   "18446744073709551616", "0.0000000000000000000000000000", "12345678901234567.8", "123456789012345678", "00000000000000000000000000000000001.50"]
+VIS_BAD_DATES = ["35.06.20", "31.02.21", "00.01.20", "01.13.20", "1a.02.20", "٣٠.٠٦.٢٠", "30-06-20", "30x06y20", "3٠.06.20", "29.02.21", "29.02.20", "30.06.2", " 1.06.20",
+                 "０１.06.20", "30.06.２0"]
+
+
+def mutate_viseca(rng, text):
+    """text (bytes) of a well-formed statement -> a damaged one (bytes), name of the damage"""
+    lines = text.split(b"\n")
+    if lines and lines[-1] == b"":
+        lines.pop()
+    kind = rng.choice(["truncate", "drop-line", "dup-line", "swap", "stray", "stray", "crlf", "non-utf8", "bad-date", "bad-date", "bad-number", "bad-number", "bad-number",
+                       "space", "space", "case", "blank", "no-final-newline", "trailing-ws", "head-garbage"])
+    if not lines:
+        return text, "empty"
+    i = rng.randrange(len(lines))
+    if kind == "truncate":
+        k = rng.randrange(len(text) + 1)
+        return text[:k], kind
+    if kind == "drop-line":
+        del lines[i]
+    elif kind == "dup-line":
+        lines.insert(i, lines[i])
+    elif kind == "swap" and len(lines) > 1:
+        j = rng.randrange(len(lines))
+        lines[i], lines[j] = lines[j], lines[i]
+    elif kind == "stray":
+        lines.insert(i, rng.choice([b"Total 12.00", b"", b"   ", b"Page 1 of 2", b"Processing fee", b"Credit of Processing fee 1.75% CHF 0.15", b"processing fee 1.75% CHF 0.15",
+                                    b"Exchange rate 1.0 of 01.01.20 CHF 1.00", b"Air-X: 1", b"9", b"\xc2\xa0", b"\xe2\x80\xa8"]))
+    elif kind == "crlf":
+        lines = [l + b"\r" for l in lines]
+    elif kind == "non-utf8":
+        k = rng.randrange(len(lines[i]) + 1)
+        lines[i] = lines[i][:k] + rng.choice([b"\xff", b"\xc3", b"\xe2\x82", b"\x80"]) + lines[i][k:]
+    elif kind == "bad-date":
+        l = lines[i].decode("utf-8", "replace")
+        import re as _re
+        m = list(_re.finditer(r"\d\d\.\d\d\.\d\d", l))
+        if m:
+            mm = rng.choice(m)
+            l = l[:mm.start()] + rng.choice(VIS_BAD_DATES) + l[mm.end():]
+        lines[i] = l.encode("utf-8")
+    elif kind == "bad-number":
+        l = lines[i].decode("utf-8", "replace")
+        import re as _re
+        m = list(_re.finditer(r"(?<= )[0-9.']+(?=$| -$|%| of )", l))
+        if m:
+            mm = rng.choice(m)
+            l = l[:mm.start()] + rng.choice(VIS_BAD_NUMBERS) + l[mm.end():]
+        lines[i] = l.encode("utf-8")
+    elif kind == "space":
+        l = lines[i]
+        sp = [k for k in range(len(l)) if l[k:k + 1] == b" "]
+        if sp:
+            k = rng.choice(sp)
+            l = l[:k] + rng.choice([b"  ", b"", b"\t", b"\xc2\xa0"]) + l[k + 1:]
+        lines[i] = l
+    elif kind == "case":
+        lines[i] = rng.choice([lines[i].lower(), lines[i].upper(), lines[i].swapcase()])
+    elif kind == "blank":
+        lines.insert(i, b"")
+    elif kind == "no-final-newline":
+        return b"\n".join(lines), kind
+    elif kind == "trailing-ws":
+        lines[i] = lines[i] + rng.choice([b" ", b"\t", b"\xc2\xa0", b"\xe3\x80\x80", b" \r", b"\x0c"])
+    elif kind == "head-garbage":
+        lines[i] = rng.choice([b"x", b" ", b"\xef\xbb\xbf"]) + lines[i]
+    return b"\n".join(lines) + b"\n", kind
+
+
+def vis_fixed_cases():
+    """hand-written statements that run on every check: every bad number and bad date at every place a number / date can stand,
+    and the line-structure corners of parse_entry"""
+    doc = {"path": "card", "encoding": "UTF-8", "account": "Liabilities:Card", "account_type": "liability", "commodity": "CHF", "operator": "Card fee",
+           "rewrite": [{"matcher": {"category": "^T(?P<payee>.*)$"}}, {"matcher": {"payee": "Migros"}, "account": "Expenses:Grocery"}]}
+    texts = []
+    for n in VIS_BAD_NUMBERS + ["1'803.05", "0", "0.00", "1'234'567.891"]:
+        texts.append("10.08.20 11.08.20 Shop %s\nCat\n" % n)
+        texts.append("10.08.20 11.08.20 Shop %s -\n" % n)
+        texts.append("10.08.20 11.08.20 Shop EUR %s 52.10\nCat\nExchange rate 1.092432 of 11.08.20 CHF 51.20\nProcessing fee 1.75%% CHF 0.90\n" % n)
+        texts.append("10.08.20 11.08.20 Shop EUR 46.88 52.10\nCat\nExchange rate %s of 11.08.20 CHF 51.20\n" % n)
+        texts.append("10.08.20 11.08.20 Shop EUR 46.88 52.10 -\nCat\nExchange rate 1.092432 of 11.08.20 CHF %s\nCredit of processing fee 1.75%% CHF %s\n" % (n, n))
+        texts.append("10.08.20 11.08.20 Shop CHF 19.00 19.35\nCat\nProcessing fee %s%% CHF 0.35\n" % n)
+    for d in VIS_BAD_DATES:
+        texts.append("%s 11.08.20 Shop 5.00\nCat\n" % d)
+        texts.append("10.08.20 %s Shop 5.00\nCat\n" % d)
+        texts.append("10.08.20 11.08.20 Shop EUR 46.88 52.10\nCat\nExchange rate 1.092432 of %s CHF 51.20\n" % d)
+    texts += [
+        "", "\n", "10.08.20 11.08.20 Shop 5.00", "10.08.20 11.08.20 Shop 5.00\n\n", "10.08.20 11.08.20 Shop 5.00\n \n",
+        "10.08.20 11.08.20 Shop 5.00\n10.08.20 11.08.20 Shop2 6.00\nCat\n", "10.08.20 11.08.20 Shop 5.00\n9 lives\n",
+        "10.08.20 11.08.20 Shop EUR 46.88 52.10\n", "10.08.20 11.08.20 Shop EUR 46.88 52.10\nCat\n", "10.08.20 11.08.20 Shop EUR 46.88 52.10\nCat\nProcessing fee 1.75% CHF 0.90\n",
+        "10.08.20 11.08.20 Shop EUR 46.88 52.10\nCat\nExchange rate 1.09 of 11.08.20 EUR 51.20\n", "10.08.20 11.08.20 Shop CHF 46.88 52.10\nCat\nExchange rate 1.09 of 11.08.20 CHF 51.20\n",
+        "10.08.20 11.08.20 Shop 5.00\nCat\nProcessing fee 1.75% CHF 0.90\n", "10.08.20 11.08.20 Shop CHF 1.00 5.00\nCat\nprocessing fee 1.75% CHF 0.90\n",
+        "10.08.20 11.08.20 Shop CHF 1.00 5.00\nCat\nCredit of Processing fee 1.75% CHF 0.90\n", "10.08.20 11.08.20 Shop CHF 1.00 5.00\nCat\nProcessing fee\n",
+        "10.08.20 11.08.20 Shop CHF 1.00 5.00\nCat\nProcessing fees 1.75% CHF 0.90\n", "10.08.20 11.08.20 Shop CHF 1.00 5.00\nCat\nProcessing fee 1.75% CHF 0.90 \nAir-X: 1\n  Air-Y-: 2\nAir-: 3\n",
+        "10.08.20 11.08.20 Shop 5.00\nCat\nAir-X: 1\nAir-: 3\n", "10.08.20 11.08.20 Shop 5.00\nAir-X: 1\n", "10.08.20 11.08.20 Shop 5.00\nCat\nAir-é: 1\n", "10.08.20 11.08.20 Shop 5.00\nCat\nAir--:\nAir-a-1:\nair-a:\n",
+        "10.08.20 11.08.20 XYZ ABC 100 12.00\n", "10.08.20 11.08.20 XYZ ABC 100 CHF 1 12.00\n", "10.08.20 11.08.20  5.00\n", "10.08.20 11.08.20 5.00\n", "10.08.20 11.08.20 Shop 5.00-\n", "10.08.20 11.08.20 Shop 5.00 - \n",
+        "10.08.20 11.08.20 Shop 5.00 -\r\nCat\r\n", "10.08.20 11.08.20 Shop  EUR 1.00 5.00\n", "10.08.20 11.08.20 Shop EUR  1.00 5.00\n", "10.08.20 11.08.20 Shop eur 1.00 5.00\n", "10.08.20 11.08.20 Shop EURO 1.00 5.00\n",
+        "10.08.20 11.08.20 Shop ÄBC 1.00 5.00\n", "10.08.20 11.08.20 Shop EUR 1.00 5.00 - -\n", "10.08.20  11.08.20 Shop 5.00\n", "10.08.2011.08.20 Shop 5.00\n", "10.08.20\t11.08.20 Shop 5.00\n",
+        "10.08.20 11.08.20 Shop 5.00\u00a0\n\u00a0Cat\u3000\n", "10.08.20 11.08.20 Shop 5.00\n\u2028\n", "10.08.20 11.08.20 Sh\u2028op 5.00\nCat\n", "\ufeff10.08.20 11.08.20 Shop 5.00\n",
+        "10.08.20 11.08.20 Shop 5.00\n٣ cat\n", "10.08.20 11.08.20 Shop 0.00 -\nCat\n", "10.08.20 11.08.20 Shop EUR 0.00 0 -\nCat\nExchange rate 0 of 11.08.20 CHF 0\nCredit of processing fee 0% CHF 0.000\n",
+        "10.08.20 10.08.20 Shop 5.00\nTMigros\n", "01.01.70 31.12.69 Shop 5.00\n", "Total 5.00\n", "10.08.20 11.08.20 Shop 5.00\nCat\nTotal 5.00\n",
+    ]
+    cases = [{"primary": "CHF", "doc": doc, "text": t.encode("utf-8"), "expected": [], "flags": [], "damage": "fixed"} for t in texts]
+    no_op = dict(doc)
+    del no_op["operator"]
+    cases.append({"primary": "CHF", "doc": no_op, "expected": [], "flags": [], "damage": "fixed",
+                  "text": b"10.08.20 11.08.20 Shop 5.00\nCat\n13.12.20 15.12.20 PAYPAL CHF 19.00 19.35\nGames\nProcessing fee 1.75% CHF 0.35\n"})
+    cases.append({"primary": "CHF", "doc": doc, "expected": [], "flags": [], "damage": "fixed", "text": b"10.08.20 11.08.20 Shop 5.00\n\xff\n"})
+    cases.append({"primary": "CHF", "doc": doc, "expected": [], "flags": [], "damage": "fixed", "text": b"10.08.20 11.08.20 Shop CHF 1.00 5.00\nCat\n\xff\n"})
+    cases.append({"primary": "CHF", "doc": doc, "expected": [], "flags": [], "damage": "fixed", "text": b"10.08.20 11.08.20 Shop 5.00\nCat\nAir-X: 1\n\xc3\n"})
+    return cases
+
+
+def gen_viseca_text_case(rng, idx):
+    hostile = [0.0, 0.1, 0.4][idx % 3]
+    primary, doc = vis_config(rng, hostile)
+    n = rng.choice([1, 1, 2, 3, 4, 6]) if rng.random() < 0.97 else 0
+    lines, exps, flags = [], [], []
+    for _ in range(n):
+        ls, exp, fl = gen_viseca_record(rng, primary, hostile, len(lines) + 1)
+        lines += ls
+        exps.append(exp)
+        flags.append(fl)
+    text = ("".join(l + "\n" for l in lines)).encode("utf-8")
+    damage = None
+    if idx % 5 >= 3:
+        text, damage = mutate_viseca(rng, text)
+        if rng.random() < 0.3:
+            text, d2 = mutate_viseca(rng, text)
+            damage += "+" + d2
+    return {"primary": primary, "doc": doc, "text": text, "expected": exps, "flags": flags, "damage": damage}
+
+
+def vis_raw_lines(text):
+    """the lines `BufRead::read_line` hands out: cut after every LF; a line that is not UTF-8 is an io error"""
+    out = []
+    for l in text.split(b"\n"):
+        out.append(l + b"\n")
+    if out:
+        out[-1] = out[-1][:-1]
+        if out[-1] == b"":
+            out.pop()
+    res = []
+    for l in out:
+        try:
+            l.decode("utf-8")
+            res.append("(t %s)" % enc(l))
+        except UnicodeDecodeError:
+            res.append("(bad)")
+    return res
+
+
+def vis_sign_facts(e, tr, cfg_account, operator, primary):
+    """C15/C16-style facts of viseca.rs::import on the REAL output: `e` a parsed `(e ..)` node, `tr` the `(txn ..)` node built for it"""
+    out = []
+    neg = int(e[5][1])
+    amt = (e[5][2], e[5][3])
+    spent = e[7][0] if e[7] else None
+    exch = e[8][0] if e[8] else None
+    fee = e[9][0] if e[9] else None
+    posts = tr[6]
+    if len(posts) != 2 + (1 if fee else 0):
+        return ["%d postings for an entry %s fee" % (len(posts), "with" if fee else "without")]
+    src, dest = (posts[-1], posts[0]) if not neg else (posts[0], posts[-1])   # statement amount positive = spending = the account is debited last
+
+    def pa(p):
+        a = p[3][0]
+        return (a[1][1][1], a[1][1][2], a[1][1][3], a[1][2]), a[2]
+    (sn, sm, ss, sc), scost = pa(src)
+    if src[1] != enc(cfg_account) or (sn, sm, ss, sc) != (str(1 - neg), amt[0], amt[1], primary):
+        out.append("the posting on the card account is not -amount in the primary commodity")
+    (dn, dm, ds, dc), dcost = pa(dest)
+    if spent is not None:
+        if (dn, dm, ds, dc) != (str(neg), spent[2], spent[3], spent[4]):
+            out.append("the counter-posting is not the spent amount with the statement's sign")
+    elif (dn, dm, ds, dc) != (str(neg), amt[0], amt[1], primary):
+        out.append("the counter-posting is not the statement amount")
+    if exch is not None:
+        want = [["rate", ["amt", ["dec", exch[1][1], exch[1][2], exch[1][3], "n"], exch[3][4]]]]
+        if dcost != want:
+            out.append("the exchange rate is not `@ rate <equivalent commodity>` on the posting in the spent commodity")
+        if spent is not None and spent[4] != sc and scost != []:
+            out.append("a rate on the card account's posting")
+    elif dcost != [] or scost != []:
+        out.append("a rate without an exchange line")
+    if fee is not None:
+        ch = posts[1]
+        (cn, cm, cs, cc), _ = pa(ch)
+        if ch[1] != "Expenses:Commissions" or (cn, cm, cs, cc) != (fee[2][1], fee[2][2], fee[2][3], fee[2][4]) or ch[5] != [["kv", "Payee", ["text", enc(operator or "")]]]:
+            out.append("the fee is not one Expenses:Commissions posting of the fee amount tagged with the operator")
+    return out
+
+
+def run_viseca_text_stream(chk, n):
+    cases = vis_fixed_cases() + [gen_viseca_text_case(chk.rng, i) for i in range(n)]
+    # the witness of finding F38 (fixed in 5a6d633: skip_air_tags skipped every line *containing* `Air-xxx:`, also the head line of the
+    # next record), always first: as a well-formed statement it must be read as written, all three records
+    wit_doc = {"path": "card", "encoding": "UTF-8", "account": "Liabilities:Card", "account_type": "liability", "commodity": "CHF", "operator": "Card fee", "rewrite": []}
+    witness = {"primary": "CHF", "doc": wit_doc, "damage": None, "flags": [set(), {"airtag"}, set()],
+               "expected": ["(e 1 (d 2020 8 10) (d 2020 8 11) Foo (dec 0 500 2) Category () () ())",
+                            "(e 3 (d 2020 8 11) (d 2020 8 12) Air-France:%20ticket (dec 0 10000 2) ~ () () ())",
+                            "(e 4 (d 2020 8 12) (d 2020 8 13) Bar (dec 0 700 2) ~ () () ())"],
+               "text": b"10.08.20 11.08.20 Foo 5.00\nCategory\n11.08.20 12.08.20 Air-France: ticket 100.00\n12.08.20 13.08.20 Bar 7.00\n"}
+    witness2 = dict(witness, expected=["(e 1 (d 2020 8 10) (d 2020 8 11) Foo (dec 0 500 2) Category () () ())",
+                                       "(e 3 (d 2020 8 11) (d 2020 8 12) Air-France:%20ticket (dec 0 10000 2) Airlines () () ())"],
+                    flags=[set(), {"airtag"}], text=b"10.08.20 11.08.20 Foo 5.00\nCategory\n11.08.20 12.08.20 Air-France: ticket 100.00\nAirlines\n")
+    cases.insert(0, witness2)
+    cases.insert(0, witness)
+    hx_lines = ["%s %s %s" % (enc("card.txt"), enc(docs_yaml([c["doc"]])), enc(c["text"])) for c in cases]
+    impl = run_sharded(HX, ["c15", "viseca"], hx_lines)
+    chk.streams["viseca-text"] = len(cases)
+    drv_lines, idx = [], []
+    parsed = []
+    for c, a in zip(cases, impl):
+        t = sx_parse(a) if a.startswith("(ok ") else None
+        parsed.append(t)
+        if t is None:
+            continue
+        drv_lines.append("(case %s %s %s (lines %s))" % (sx_str(sx_find(t, "cfg")[1]), sx_str(sx_find(t, "pats")), sx_str(sx_find(t, "table")), " ".join(vis_raw_lines(c["text"]))))
+        idx.append(len(parsed) - 1)
+    model = dict(zip(idx, run_sharded(DRV, ["c15", "viseca"], drv_lines)))
+    reprint = []
+    for k, (c, line, a, t) in enumerate(zip(cases, hx_lines, impl, parsed)):
+        stmt = c["text"].decode("utf-8", "replace")
+        replay = {"stream": "c15 viseca", "config": docs_yaml([c["doc"]]), "statement": stmt, "damage": c["damage"],
+                  "rerun": "echo '%s' | /verif/work/target/debug/hx c15 viseca" % line}
+        if a.startswith("(panic"):
+            chk.case(line)
+            chk.oracle_failures += 1
+            chk.violation("the Viseca importer panicked on a statement: %s" % dec(a[7:-1])[:200], replay)
+            continue
+        if t is None:
+            chk.case(line, nontrivial=False)
+            chk.count("viseca-text:config-refused")
+            continue
+        chk.case(line, nontrivial=bool(c["expected"]) or c["damage"] is not None)
+        chk.traces += 1
+        P, I = sx_find(t, "parse")[1], sx_find(t, "import")[1]
+        operator = c["doc"].get("operator")
+        chk.count("viseca-text:%s:parse-%s" % ("damaged" if c["damage"] else "well-formed", P[0] if P[0] == "ok" else "err:" + P[1]))
+        if c["damage"]:
+            chk.count("viseca-text:damage:" + c["damage"].split("+")[0])
+        if I[0] == "err":
+            chk.count("viseca-text:import-err:" + I[2])
+        # ---- oracles on the real code, independent of the model
+        bad = None
+        entries = P[1:] if P[0] == "ok" else []
+        special = any("ambiguous" in f for f in c["flags"])
+        if c["damage"] is None:
+            if P[0] != "ok":
+                if not special:
+                    bad = "a well-formed statement was refused by the parser: %s %s" % (P[1], dec(P[2]))
+            else:
+                got = [sx_str(e) for e in entries]
+                if got != c["expected"] and not special:
+                    j = next((j for j in range(min(len(got), len(c["expected"]))) if got[j] != c["expected"][j]), min(len(got), len(c["expected"])))
+                    bad = ("record %d of a well-formed statement was not read as written: %d records read for %d written; read %s, written %s"
+                           % (j, len(got), len(c["expected"]), got[j] if j < len(got) else "-", c["expected"][j] if j < len(c["expected"]) else "-"))
+            if special and (P[0] != "ok" or [sx_str(e) for e in entries] != c["expected"]):
+                chk.count("viseca-text:well-formed:ambiguous-payee:read-differently")
+            if any("airtag" in f for f in c["flags"]):
+                chk.count("viseca-text:well-formed:air-tag-text-in-a-payee")
+        if bad is None and P[0] == "ok" and I[0] == "ok":
+            trs = I[1:]
+            if len(trs) != len(entries):
+                bad = "%d transactions for %d statement records read by the parser" % (len(trs), len(entries))
+            else:
+                for e, tr in zip(entries, trs):
+                    if tr[1] != e[2] or tr[2] != ([] if e[3] == e[2] else [e[3]]):
+                        bad = "transaction dates are not the record's (effective date only when different)"
+                        break
+                    facts = vis_sign_facts(e, tr, c["doc"]["account"], operator, c["primary"])
+                    if facts:
+                        bad = facts[0]
+                        break
+        if bad is None and P[0] == "ok" and I[0] == "err" and I[2] in ("Viseca", "IO", "InvalidDatetime", "InvalidDecimal"):
+            bad = "the parser alone reads the statement, the importer fails in the parser (%s)" % I[2]
+        if bad is not None:
+            chk.oracle_failures += 1
+            chk.violation("Viseca import: " + bad, dict(replay, impl=a[:3000]))
+            continue
+        # ---- model vs implementation
+        b = model.get(k, "")
+        if b.startswith("(table-incomplete"):
+            chk.count("viseca-text:regex-table-incomplete")
+            continue
+        tb = sx_parse(b) if b.startswith("(ok ") else None
+        mp = sx_find(tb, "parse")[1] if tb else None
+        mi = sx_find(tb, "import")[1] if tb else None
+        if tb is None or mp != P or mi != I:
+            what = "parser" if (tb is None or mp != P) else "importer"
+            chk.disagreements += 1
+            chk.violation("model and implementation of the Viseca %s disagree" % what,
+                          dict(replay, impl_parse=sx_str(P)[:3000], model_parse=sx_str(mp)[:3000] if mp else b[:500],
+                               impl_import=sx_str(I)[:3000], model_import=sx_str(mi)[:3000] if mi else None), no_failing_input=True, tag="corr")
+            continue
+        cn = sx_find(tb, "canon")
+        if cn[1] == "1" and entries:
+            reprint.append((c, entries, dec_bytes(cn[2])))
+            chk.count("viseca-text:canonical-statements")
+    # ---- the model's canonical text of the entries read, through the REAL parser: the round-trip theorem's instance on the real code
+    if reprint:
+        rl = ["%s %s %s" % (enc("card.txt"), enc(docs_yaml([c["doc"]])), enc(txt)) for c, _, txt in reprint]
+        back = run_sharded(HX, ["c15", "viseca"], rl)
+        for (c, entries, txt), line, a in zip(reprint, rl, back):
+            t = sx_parse(a) if a.startswith("(ok ") else None
+            P = sx_find(t, "parse")[1] if t else None
+            strip = lambda es: [sx_str(e[:1] + e[2:]) for e in es]
+            chk.count("viseca-text:round-trip-on-real-parser")
+            if P is None or P[0] != "ok" or strip(P[1:]) != strip(entries):
+                chk.oracle_failures += 1
+                chk.violation("the canonical text of a canonical entry list is not read back by the real Viseca parser as those entries (round-trip theorem contradicted on the real code)",
+                              {"stream": "c15 viseca reprint", "printed": txt.decode("utf-8", "replace"), "entries": [sx_str(e) for e in entries], "read_back": a[:3000],
+                               "rerun": "echo '%s' | /verif/work/target/debug/hx c15 viseca" % line})
+    wi = sx_find(parsed[0], "import")[1] if parsed[0] else None
+    chk.count("viseca-text:f38-witness:transactions", len(wi) - 1 if wi and wi[0] == "ok" else 0)
+    chk.sample({"stream": "viseca-text F38 witness (fixed: must read all three records)", "statement": witness["text"].decode(), "impl": impl[0][:1500]})
+    k = min(3, len(cases) - 1)
+    chk.sample({"stream": "viseca-text", "statement": cases[k]["text"].decode("utf-8", "replace"), "impl": impl[k][:1200], "model": model.get(k, "")[:800]})
+
+
+# ------------------------------------------------------------------------------------------------
 # F15 witnesses through the real CSV importer
 
 F15_CONFIG = {"path": "stmt", "encoding": "UTF-8", "account": "Assets:Bank", "account_type": "asset", "commodity": "CHF",
@@ -675,9 +1190,17 @@ def run(chk):
                 "balance / commodity / charge / rate+secondary columns, grouping commas, both account types and row orders, precision "
                 "tables, capture rules routing hostile text into payee and code), Viseca and Camt053 files with the same text; cases are "
                 "partitioned by the Lean predicates CleanText / ReadableTree; non-trivial = carries charges, rates, transferred amount, "
-                "comments or code / builds at least one transaction")
+                "comments or code / builds at least one transaction; viseca-text stream: hand-written corner statements (every bad number / "
+                "bad date at every place a number / date can stand, line-structure corners of parse_entry, the F38 witness) + generated "
+                "statements of 1-6 records (payees with digits / commas / country codes / `'` / Air- text / currency-like endings, `'` grouping "
+                "in three styles, ` -` credits, foreign currency with exchange line and fee / credit of fee, same-currency fee, air-tag "
+                "lines, dates across years and the 69/70 window, three configurations of rewrite rules incl. invalid ones, with / without "
+                "operator), 40 % of them damaged by one or two of 15 mutations")
     chk.assumptions = ["the read-back (print then parse) is checked by the oracle on the real printer and parser, not proved",
-                       "csv / quick-xml / regex / chrono decoding happen before the model (decoded record = model input)",
+                       "csv / quick-xml / regex / chrono decoding happen before the model (decoded record = model input); for Viseca the model "
+                       "starts at the lines of the file: BufRead::read_line (cut after LF, per-line UTF-8 check), the regex crate's leftmost-first "
+                       "semantics on the four fixed patterns, chrono's %d.%m.%y and rust_decimal's from_str are transliterated by hand and "
+                       "validated by the viseca-text stream; the regex engine for the CONFIGURED rewrite patterns stays a parameter",
                        "rust_decimal addition outside 96 bits / scale 28 is not modelled"]
     if not standard_prologue(chk, THEOREMS):
         return
@@ -685,6 +1208,7 @@ def run(chk):
     f15 = []
     run_txn_stream(chk, 1600 if quick else 40000, f15)
     run_import_stream(chk, 500 if quick else 8000, f15)
+    run_viseca_text_stream(chk, 600 if quick else 12000)
     # F15: the recorded witnesses on the real CSV importer
     res = replay_f15(chk)
     known = [f for f in chk.known if f["id"] == "F15"]
